@@ -82,6 +82,7 @@ func main() {
 	case "verify":
 		fs := flag.NewFlagSet("verify", flag.ExitOnError)
 		safety := fs.Bool("safety", false, "record no-panic obligations")
+		bounds := fs.Bool("bounds", false, "record no-panic obligations except nil dereferences")
 		verbose := fs.Bool("v", false, "verbose")
 		dump := fs.String("dump", "", "write the first failing query to this file")
 		fs.Parse(os.Args[2:])
@@ -117,12 +118,12 @@ func main() {
 			if closure > 0 {
 				c = w.Contracts[fmt.Sprintf("emitted.%s_closure%d", strings.ReplaceAll(strings.TrimPrefix(fkey, "emitted."), ".", "_"), closure)]
 			}
-			r := w.VerifyFunc(fi, c, VerifyOpts{Safety: *safety, Events: events, Closure: closure, Timeout: 10 * time.Second})
+			r := w.VerifyFunc(fi, c, VerifyOpts{Safety: *safety, Bounds: *bounds, Events: events, Closure: closure, Timeout: 10 * time.Second})
 			if !printUnit(r, *verbose) {
 				allOK = false
 				if *dump != "" {
 					for _, o := range r.Obls {
-						if o.Status != "proved" && o.Expect == "" {
+						if o.Status != "proved" && o.Expect == "" && strings.Contains(o.Name, os.Getenv("GOVC_DUMP_MATCH")) {
 							os.WriteFile(*dump, []byte(o.Script), 0o644)
 							break
 						}
